@@ -287,6 +287,12 @@ theorem generated_loop_bodies :
       "async for data in file.iter_by_block(connection.block_size):", "    await stream.write(data)"] := by decide
 
 open Generated.Transfer in
+/-- closing a stream is the writer's own `close()` and nothing else: what the transport still buffers is flushed
+    before the socket goes (asyncio's contract for `close()`; `abort()` would drop it), whatever the peer has done to
+    ITS sending side - the tail of a download is delivered to a client that half-closed and reads slowly -/
+theorem generated_stream_close : streamCloseBody = ["self.writer.close()"] := by decide
+
+open Generated.Transfer in
 /-- the iterator stops on a falsy (empty) read only, and both `iter_by_block` read exactly `count` -/
 theorem generated_iterator :
     iteratorNext = ["data = await self.read_coro()", "if data:", "    return data", "else:", "    raise StopAsyncIteration"]
